@@ -100,7 +100,7 @@ def dist (k : Kind) (a b : Array α) : α :=
   | .dint => rvDist a b 4
   | .uni => Num.ofNat 0 + Num.ofNat 1 * rvDist a b 2 + Num.ofDec 5 1 * so2Dist (g a 2) (g b 2)
 
-/-- `PosGoal::distanceGoal` and `GoalRegion::isSatisfied` (`d2g <= threshold_`) -/
+/-- `PosGoal::distanceGoal` and `GoalRegion::isSatisfied` (`d2g < threshold_`, strict) -/
 def goalDist (goal s : Array α) : α :=
   let dx := g s 0 - g goal 0
   let dy := g s 1 - g goal 1
@@ -108,7 +108,7 @@ def goalDist (goal s : Array α) : α :=
 
 def goalTest (goal : Array α) (thr : α) (s : Array α) : Bool × α :=
   let d := goalDist goal s
-  (decide (d ≤ thr), d)
+  (decide (d < thr), d)
 
 /-- control within the control-space bounds -/
 def ctlInBounds (c : Cfg α) (u : Array α) : Bool :=
